@@ -182,6 +182,17 @@ func propMachine(t *rapid.T, h hashKind) {
 			}
 			bindDrawn(t, name)
 		},
+		"bind_burst": func(t *rapid.T) {
+			// many bindings to one challenge in a row: crosses the growth points (4, 8, 16, 32) of whatever
+			// container holds them
+			steps++
+			name := declared(t)
+			m := rapid.SampledFrom([]int{4, 5, 8, 9, 16, 17, 33}).Draw(t, "burst")
+			classes["bind_burst"] = true
+			for j := 0; j < m; j++ {
+				bindDrawn(t, name)
+			}
+		},
 		"bind_shared_buffer": func(t *rapid.T) {
 			// one caller buffer bound twice (possibly to two challenges), mutated later by mut_bound
 			steps++
